@@ -1,4 +1,4 @@
 INIT Init
 NEXT Next
-INVARIANTS TotalSane EligibleSane
+INVARIANTS TotalSane EligibleSane WireSane
 CHECK_DEADLOCK FALSE
